@@ -228,7 +228,7 @@ def main(tier, only=None):
         raise MachineryError("non-vacuity control failed: Crash does not violate CompilesOrDiagnoses")
     run.add_mc("Cli(AllowCrash control)", crash)
     # ---- S2C: option combinations from the spec x models
-    n = 96 if tier == "quick" else 2400
+    n = 176 if tier == "quick" else 3000
     optrecs = options_from_tlc(run, n, sd)
     models = [(e["family"], e["net"], False) for e in corpus.all_singles(sd)]
     models += [(e["family"], e["net"], False) for e in corpus.draw(int(n * 0.6) - len(models), sd)]
